@@ -50,6 +50,10 @@ CLAIMED = {
          "Machine-checked theorems: construct / join / reflected division / relative_to / is_relative_to raise WrongHostError iff an argument belongs to a foreign machine, at_host iff the hosts differ, otherwise the operation is pathlib's on the unwrapped segments; parsing always yields a normal form and re-wrapping a normal form is the identity (why tbot's Path(host, result) pattern is harmless). The behaviour of PurePosixPath itself is an environment model (validated against the real pathlib on every run), and the per-operation agreement of tbot.Path with pathlib is decided by exhaustive differential runs (all segment tuples up to length 2 x every operation, random sequences), not by proof. Known finding: a CPython corner of with_suffix.",
          "Trusted: Coq kernel + vm_compute; environment model coq/PosixPath.v of CPython 3.12.1 pathlib; the harness (machines compared via Machine.__eq__); match() only via oracle.",
          "DESIGN.md 8/C12"),
+ "C20": ("Coq proof that parsing the generated ssh / scp command lines returns exactly the configured parameters (for all configurations, strings, option lists) and that copy() forwards the remote machine's parameters in every branch + correspondence with recording lab-host stand-ins over the full configuration grid",
+         "Machine-checked theorems over an executable model of SSHConnector._connect's argv, _scp_copy's argv and copy()'s host-pair dispatch: reading the ssh command line back yields exactly user@host, port, identity/password, batch mode unless a password is used, host-key checking off iff configured, multiplexing iff enabled, every extra option in order; scp carries the same parameters (options up to order) and the caller's operands for both directions; every scp branch of copy() uses the REMOTE machine's parameters on the local side; unsupported pairings raise. Tied to /repo by running the real _connect and copy() against recording hosts over the whole grid (configs x auth kinds x multiplexing x 7 pairings x 2 directions) with an independent command-line reader as oracle.",
+         "Trusted: Coq kernel + vm_compute; hand-written model coq/SshScp.v; a stub paramiko module (configuration properties and dispatch only); OpenSSH option semantics not modelled; distinct machines = distinct classes.",
+         "DESIGN.md 8/C20"),
 }
 NOT_YET = "check not built yet (work in progress; will be claimed once its Coq theorems and correspondence check exist)"
 
